@@ -21,9 +21,9 @@ RuleStr(r, parens, blanks) ==
   IN lhs \o (IF blanks THEN "   ->  " ELSE " -> ") \o r[3]
 
 \* the lines of a serialisation.  variant 0: canonical; 1: nullary rules with (); 2: blank lines, extra blanks, q:0 suffixes;
-\* 3: sections without content where the description allows it (no Ops / States lists)
+\* 3: sections without content where the description allows it (no Ops / States lists); 4: symbols declared without a rank
 Lines(d, variant) ==
-  LET symTok == [s \in d.syms |-> s[1] \o ":" \o NatStr(s[2])]
+  LET symTok == [s \in d.syms |-> IF variant = 4 THEN s[1] ELSE s[1] \o ":" \o NatStr(s[2])]
       syms == SetToSeq({symTok[s] : s \in d.syms})
       sts == SetToSeq(d.states)
       stsV == IF variant = 2 THEN [i \in 1..Len(sts) |-> sts[i] \o ":0"] ELSE sts
